@@ -678,20 +678,16 @@ theorem renderFrom_inj {a b : List Comp} (ha : a ≠ []) (hb : b ≠ []) (hsa : 
       rw [parse_compNames _ hsa, parse_compNames _ hsb] at h3
       exact h3
 
-/-- the rebuild theorem for any list of pairs that covers the flattened view (duplicates allowed) -/
-theorem rebuild_cover (d : AMap Node) (hv : (Node.cont d).Valid) (hs : (Node.cont d).SafeKeys)
-    (hi : ItemsHaveScalars d) (σ : List (String × Scalar))
-    (h1 : ∀ x ∈ σ, x ∈ flatten d) (h2 : ∀ x ∈ flatten d, x ∈ σ) : flatten (rebuild σ) = flatten d := by
+/-- for any list of pairs that covers the flattened view (any order, duplicates allowed) the rebuilt
+    document is the mask of `d` by a set holding all leaf paths of `d` -/
+theorem rebuild_eq_mask (d : AMap Node) (hv : (Node.cont d).Valid) (hs : (Node.cont d).SafeKeys)
+    (σ : List (String × Scalar)) (h1 : ∀ x ∈ σ, x ∈ flatten d) (h2 : ∀ x ∈ flatten d, x ∈ σ) :
+    ∃ S : List PSeg → Bool, (∀ s ∈ spKvs d, S s.1 = true) ∧ rebuild σ = maskKvs S d := by
   rw [flatten_pairOf] at h1 h2
   obtain ⟨τ, rfl, hτ⟩ := exists_map_of_subset pairOf (lpKvs d) σ h1
   have hfold := fold_mask d hv hs τ (fun _ => false) hτ
   rw [maskKvs_empty] at hfold
-  unfold rebuild
-  rw [hfold]
-  have hall : ∀ q ∈ d, q.2.ItemsHaveScalars := by
-    cases hi with
-    | cont hall => exact hall
-  apply flatten_maskKvs d _ "" hall
+  refine ⟨addPs (fun _ => false) τ, ?_, hfold⟩
   intro s hsm
   obtain ⟨q, hq, hst, _⟩ := mem_lpKvs_of_spKvs hsm
   obtain ⟨q', hq', he⟩ := List.mem_map.mp (h2 (pairOf q) (List.mem_map.mpr ⟨q, hq, rfl⟩))
@@ -700,5 +696,149 @@ theorem rebuild_cover (d : AMap Node) (hv : (Node.cont d).Valid) (hs : (Node.con
   have hpath : q'.1 = q.1 := renderFrom_inj hne' hne hsafe' hsafe (Prod.mk.inj he).1
   rw [← hst, ← hpath]
   exact addPs_mem τ _ q' hq'
+
+/-- the rebuild theorem for any list of pairs that covers the flattened view (duplicates allowed) -/
+theorem rebuild_cover (d : AMap Node) (hv : (Node.cont d).Valid) (hs : (Node.cont d).SafeKeys)
+    (hi : ItemsHaveScalars d) (σ : List (String × Scalar))
+    (h1 : ∀ x ∈ σ, x ∈ flatten d) (h2 : ∀ x ∈ flatten d, x ∈ σ) : flatten (rebuild σ) = flatten d := by
+  obtain ⟨S, hS, he⟩ := rebuild_eq_mask d hv hs σ h1 h2
+  rw [he]
+  have hall : ∀ q ∈ d, q.2.ItemsHaveScalars := by
+    cases hi with
+    | cont hall => exact hall
+  exact flatten_maskKvs d S "" hall hS
+
+/-! ### documents without empty composites are rebuilt exactly -/
+
+/-- no empty list and no empty container at or below the node -/
+inductive Node.NoEmpty : Node → Prop
+  | leaf (v : Scalar) : Node.NoEmpty (.leaf v)
+  | list {xs : List Node} : xs ≠ [] → (∀ x ∈ xs, Node.NoEmpty x) → Node.NoEmpty (.list xs)
+  | cont {kvs : List (String × Node)} : kvs ≠ [] → (∀ p ∈ kvs, Node.NoEmpty p.2) → Node.NoEmpty (.cont kvs)
+
+mutual
+theorem maskNode_full : ∀ (n : Node) (S : List PSeg → Bool), n.NoEmpty → (∀ q ∈ sp n, S q.1 = true) →
+    maskNode S n = some n
+  | .leaf v, S, _, h => by
+    have : S [] = true := h ([], v) (by simp [sp])
+    simp [maskNode, this]
+  | .list xs, S, hn, h => by
+    cases hn with
+    | list hne hall =>
+      rw [maskNode_list, maskList_full xs 0 S hall (by simpa [sp] using h)]
+      exact optList_of_ne_nil hne
+  | .cont kvs, S, hn, h => by
+    cases hn with
+    | cont hne hall =>
+      rw [maskNode_cont, maskKvs_full kvs S hall (by simpa [sp] using h)]
+      exact optCont_of_ne_nil hne
+theorem maskList_full : ∀ (xs : List Node) (o : Nat) (S : List PSeg → Bool), (∀ x ∈ xs, x.NoEmpty) →
+    (∀ q ∈ spList xs o, S q.1 = true) → maskList S xs o = xs
+  | [], _, _, _, _ => by simp [maskList]
+  | x :: xs, o, S, hn, h => by
+    have h1 := maskNode_full x (rs S (.idx o)) (hn x (List.mem_cons_self ..)) (by
+      intro q hq
+      exact h (PSeg.idx o :: q.1, q.2) (by
+        simp only [spList, List.mem_append, List.mem_map]
+        exact Or.inl ⟨q, hq, rfl⟩))
+    have h2 := maskList_full xs (o + 1) S (fun y hy => hn y (List.mem_cons_of_mem _ hy)) (by
+      intro q hq
+      exact h q (by
+        simp only [spList, List.mem_append]
+        exact Or.inr hq))
+    rw [maskList_cons, h1, h2]
+    rfl
+theorem maskKvs_full : ∀ (kvs : List (String × Node)) (S : List PSeg → Bool), (∀ p ∈ kvs, p.2.NoEmpty) →
+    (∀ q ∈ spKvs kvs, S q.1 = true) → maskKvs S kvs = kvs
+  | [], _, _, _ => by simp [maskKvs]
+  | (k, x) :: r, S, hn, h => by
+    have h1 := maskNode_full x (rs S (.key k)) (hn (k, x) (List.mem_cons_self ..)) (by
+      intro q hq
+      exact h (PSeg.key k :: q.1, q.2) (by
+        simp only [spKvs, List.mem_append, List.mem_map]
+        exact Or.inl ⟨q, hq, rfl⟩))
+    have h2 := maskKvs_full r S (fun y hy => hn y (List.mem_cons_of_mem _ hy)) (by
+      intro q hq
+      exact h q (by
+        simp only [spKvs, List.mem_append]
+        exact Or.inr hq))
+    simp only [maskKvs, h1, h2]
+end
+
+/-- a document whose composites below the root are all non-empty is rebuilt EXACTLY -/
+theorem rebuild_exact (d : AMap Node) (hv : (Node.cont d).Valid) (hs : (Node.cont d).SafeKeys)
+    (hn : ∀ p ∈ d, p.2.NoEmpty) (σ : List (String × Scalar))
+    (h1 : ∀ x ∈ σ, x ∈ flatten d) (h2 : ∀ x ∈ flatten d, x ∈ σ) : rebuild σ = d := by
+  obtain ⟨S, hS, he⟩ := rebuild_eq_mask d hv hs σ h1 h2
+  rw [he]
+  exact maskKvs_full d S hn hS
+
+/-! ### the flattened Go map covers the flattened view -/
+
+theorem mem_foldl_insert {α : Type} : ∀ (l : List (String × α)) (m : AMap α) (x : String × α),
+    x ∈ l.foldl (fun m p => AMap.insert m p.1 p.2) m → x ∈ m ∨ x ∈ l
+  | [], _, _, h => Or.inl h
+  | p :: l, m, x, h => by
+    simp only [List.foldl_cons] at h
+    rcases mem_foldl_insert l _ x h with h | h
+    · rcases AMap.mem_insert h with rfl | h
+      · exact Or.inr (List.mem_cons_self ..)
+      · exact Or.inl h
+    · exact Or.inr (List.mem_cons_of_mem _ h)
+
+theorem get?_foldl_insert_not_mem {α : Type} : ∀ (l : List (String × α)) (m : AMap α) (k : String),
+    (∀ x ∈ l, x.1 ≠ k) → AMap.get? (l.foldl (fun m p => AMap.insert m p.1 p.2) m) k = AMap.get? m k
+  | [], _, _, _ => rfl
+  | p :: l, m, k, h => by
+    simp only [List.foldl_cons]
+    rw [get?_foldl_insert_not_mem l _ k (fun x hx => h x (List.mem_cons_of_mem _ hx))]
+    exact AMap.get?_insert_ne _ _ (fun e => h p (List.mem_cons_self ..) e.symm)
+
+theorem get?_foldl_insert_mem {α : Type} : ∀ (l : List (String × α)) (m : AMap α) (k : String) (v : α),
+    (∀ x ∈ l, ∀ y ∈ l, x.1 = y.1 → x.2 = y.2) → (k, v) ∈ l →
+    AMap.get? (l.foldl (fun m p => AMap.insert m p.1 p.2) m) k = some v
+  | [], _, _, _, _, h => by cases h
+  | p :: l, m, k, v, hf, h => by
+    simp only [List.foldl_cons]
+    have hf' : ∀ x ∈ l, ∀ y ∈ l, x.1 = y.1 → x.2 = y.2 :=
+      fun x hx y hy => hf x (List.mem_cons_of_mem _ hx) y (List.mem_cons_of_mem _ hy)
+    by_cases hk : ∃ x ∈ l, x.1 = k
+    · obtain ⟨x, hx, hxk⟩ := hk
+      have hv : x.2 = v := hf x (List.mem_cons_of_mem _ hx) (k, v) h hxk
+      have : (k, v) ∈ l := by
+        have e : x = (k, v) := Prod.ext hxk hv
+        rw [← e]; exact hx
+      exact get?_foldl_insert_mem l _ k v hf' this
+    · have hnot : ∀ x ∈ l, x.1 ≠ k := fun x hx e => hk ⟨x, hx, e⟩
+      rw [get?_foldl_insert_not_mem l _ k hnot]
+      simp only [List.mem_cons] at h
+      rcases h with rfl | h
+      · exact AMap.get?_insert_self _ _ _
+      · exact absurd rfl (hnot _ h)
+
+theorem flatten_functional (d : AMap Node) (hv : (Node.cont d).Valid) (hs : (Node.cont d).SafeKeys) :
+    ∀ x ∈ flatten d, ∀ y ∈ flatten d, x.1 = y.1 → x.2 = y.2 := by
+  intro x hx y hy e
+  have h1 := lookup_flatten_aux d hv hs x.1 x.2 hx
+  have h2 := lookup_flatten_aux d hv hs y.1 y.2 hy
+  rw [e, h2] at h1
+  simpa using h1.symm
+
+theorem mem_flattenMap_iff (d : AMap Node) (hv : (Node.cont d).Valid) (hs : (Node.cont d).SafeKeys)
+    (x : String × Scalar) : x ∈ flattenMap d ↔ x ∈ flatten d := by
+  unfold flattenMap AMap.ofList
+  constructor
+  · intro h
+    rcases mem_foldl_insert _ _ x h with h | h
+    · cases h
+    · exact h
+  · intro h
+    exact AMap.mem_of_get? (get?_foldl_insert_mem _ [] x.1 x.2 (flatten_functional d hv hs) h)
+
+/-- rebuilding from the flattened Go map (sorted by path — the order Properties mode uses) -/
+theorem rebuild_flattenMap_exact (d : AMap Node) (hv : (Node.cont d).Valid) (hs : (Node.cont d).SafeKeys)
+    (hn : ∀ p ∈ d, p.2.NoEmpty) : rebuild (flattenMap d) = d :=
+  rebuild_exact d hv hs hn _ (fun x hx => (mem_flattenMap_iff d hv hs x).mp hx)
+    (fun x hx => (mem_flattenMap_iff d hv hs x).mpr hx)
 
 end Ytk
